@@ -262,7 +262,7 @@ CHECKS = {
                     quick=dict(shards=4, checks=100, timeout=300),
                     thorough=dict(shards=16, checks=2500, timeout=1800))],
         rule="every table notification (OnTableUpdated and OnTableStateUpdated) of generated hands, including the re-publications caused by table-level operations during a hand (reserve / join / re-buy / add-on / deadline extension), (all statuses and hand phases, showdown and fold-out endings, and hands that keep running after an external PauseTable / CloseTable) is handed - inside the engine's callback, as the engine's live table - to 1..5 actors attached in a drawn order (non-system observer, system observer, a scribbling system observer, a player runner) through the real TableEngineAdapter; oracle: the non-system observer is never shown deck, burned cards, hole cards or hand strength while the hand is in play, nor those of folded players after it closed; the engine's table is unchanged by the fan-out; no actor shares structure with the engine or another actor; what one actor changes is invisible to the others; the system observer gets the unmasked copy; non-trivial = a snapshot with dealt hole cards or a closed hand with folded and shown players; distinct = distinct generated histories",
-        mandatory=dict(quick=['observer_attached_during_hand', 'system_mode_switched_off_mid_hand', "playing_with_cards", "closed_showdown_with_fold", "closed_foldout", "paused_during_hand", "table_level_op_during_hand", "actors_1", "actors_5"]),
+        mandatory=dict(quick=['older_snapshot_delivered_late', 'observer_attached_during_hand', 'system_mode_switched_off_mid_hand', "playing_with_cards", "closed_showdown_with_fold", "closed_foldout", "paused_during_hand", "table_level_op_during_hand", "actors_1", "actors_5"]),
         assumptions=["only snapshots the engine emits are presented"],
     ),
     "C04": dict(
